@@ -199,10 +199,15 @@ def known_findings():
     return json.load(open(p))
 
 
+CURRENT = None      # the report of the running check (bin/check finishes it if a later step fails as a tool)
+
+
 class Report:
     """Collects coverage numbers, violations and known findings of one check run."""
 
     def __init__(self, pid, tier, seed, level):
+        global CURRENT
+        CURRENT = self
         self.pid, self.tier, self.seed, self.level = pid, tier, seed, level
         self.t0 = time.time()
         self.states = 0
